@@ -2,7 +2,7 @@
 """archive a verified round-4 change: tools/archive_round4.py <PROP> <n> <detected: quick|missed> [note]   (source: /tmp/wt4_<PROP>/mutants)"""
 import json, os, shutil, sys
 RND = os.environ.get("ROUND", "4")
-BASE = {"4": "c741326", "5": "71bcf35"}.get(RND, "")
+BASE = {"4": "c741326", "5": "71bcf35", "6": "0917b66"}.get(RND, "")
 prop, n, det = sys.argv[1:4]
 note = sys.argv[4] if len(sys.argv) > 4 else ""
 src = "/tmp/wt%s_%s/mutants" % (RND, prop)
